@@ -570,6 +570,23 @@ pub fn run(args: &Args) {
 			ClockSpeed::TicksPerSecond(v) => (1, v),
 			ClockSpeed::TicksPerMinute(v) => (2, v),
 		};
+		// the units convert consistently inside interpolation too: in the unit of the second speed, the result is
+		// the first speed at amount 0 and the second at amount 1 (to the rounding of `a + (b - a) * t`)
+		if x.is_finite() && x > 1e-6 && x < 1e9 {
+			let unit = |c: ClockSpeed| match kind2 {
+				0 => c.as_seconds_per_tick(),
+				1 => c.as_ticks_per_second(),
+				_ => c.as_ticks_per_minute(),
+			};
+			let (au, bu) = (unit(sp), unit(sp2));
+			let e0 = unit(ClockSpeed::interpolate(sp, sp2, 0.0));
+			let e1 = unit(ClockSpeed::interpolate(sp, sp2, 1.0));
+			let tol = 8.0 * f64::EPSILON * au.abs().max(bu.abs());
+			s.eval_only("clock_speed_interpolate_ends");
+			if !((e0 - au).abs() <= tol && (e1 - bu).abs() <= tol) {
+				s.fail(format!("ClockSpeed::interpolate({sp:?}, {sp2:?}, 0 | 1)"), format!("gives {e0:?} and {e1:?} at the ends (in the unit of the second speed), the two speeds are {au:?} and {bu:?} in that unit"), None);
+			}
+		}
 		s.case(
 			"clock_speed_interpolate",
 			format!("CSpeedLerp {} {} {} {} {}", kind, f64_bits_z(x), kind2, f64_bits_z(y), f64_bits_z(amt)),
@@ -739,6 +756,15 @@ pub fn run(args: &Args) {
 				s.fail(format!("Frame({x:?},{x:?}).panned({p:?})"), format!("power {pw:?} != {want:?}"), None);
 			}
 			s.eval_only("pan_power");
+		}
+	}
+	// whole octaves are exact: the argument handed to powf is exactly the number of octaves (theorem
+	// semitones_octave_b64) and 2^k is representable, so twelve semitones double the rate to the last bit
+	for (sm, want) in [(12.0f64, 2.0f64), (0.0, 1.0), (-12.0, 0.5), (24.0, 4.0), (-24.0, 0.25), (36.0, 8.0), (120.0, 1024.0), (-120.0, 1.0 / 1024.0)] {
+		let r: PlaybackRate = Semitones(sm).into();
+		s.eval_only("semitones_whole_octaves");
+		if r.0.to_bits() != want.to_bits() {
+			s.fail(format!("Semitones({sm:?})"), format!("playback rate {:?}, but {} semitones are {} octaves: exactly {want:?}", r.0, sm, sm / 12.0), None);
 		}
 	}
 	for _ in 0..n / 2 {
